@@ -150,11 +150,11 @@ def _work(item):
             "raised": rec.get("raised"), "internal": rec.get("internal_errors"), "clean_input": rec.get("clean_input"), "changed": rec.get("changed")}
 
 
-def sweep(out_path, procs=14):
-    """Developer tool: the whole universe on the current tree."""
+def sweep(out_path, procs=14, kinds=None):
+    """Developer tool: the whole universe (or some kinds of it) on the current tree."""
     import multiprocessing
     from vlib import corpus
-    jobs = corpus.full_universe()
+    jobs = [j for j in corpus.full_universe() if kinds is None or j[0] in kinds]
     with multiprocessing.get_context("fork").Pool(procs) as pool:
         res = list(pool.imap_unordered(_work, jobs, chunksize=8))
     res.sort(key=lambda r: (r["name"], r["ruleset"]))
@@ -165,7 +165,7 @@ def sweep(out_path, procs=14):
 if __name__ == "__main__":
     import sys
     sys.path.insert(0, os.path.dirname(os.path.dirname(os.path.abspath(__file__))))
-    r = sweep(sys.argv[1], int(sys.argv[2]) if len(sys.argv) > 2 else 14)
+    r = sweep(sys.argv[1], int(sys.argv[2]) if len(sys.argv) > 2 else 14, sys.argv[3].split(",") if len(sys.argv) > 3 else None)
     from collections import Counter
     c = Counter()
     for x in r:
